@@ -44,6 +44,7 @@ TBL_P = "10=a\n2021=b\n"
 FILES = {"e.tbl": TBL_E, "p.tbl": TBL_P, "blob.bin": bytes(range(16)), "inc.s": "incl:\n.dw incl\n", "badinc.s": "; included file with an error\n.bogus 1\n",
          "bad.tbl": "41=a\n4=b\n43=c\n", "ev.ips": refips_build(),
          # files that exist ONLY in a sub-directory (a probe that names them without the directory must keep failing)
+         "odd-name file.bin": bytes([0x71, 0x72, 0x73]),
          "sub/inc2.s": "subl:\n.dw subl\n", "sub/only.s": ".db 0x5a\n", "sub/only.bin": b"\x01\x02", "sub/only.tbl": "30=a\n"}
 
 EVENTS = {
@@ -62,7 +63,8 @@ EVENTS = {
     "ips-with-delta": ("*=0x018000\n.db 1\n.include_ips 'ev.ips', 0-0x100\n", "low_rom"),
     "bad-table": ("*=0x018000\n.table 'bad.tbl'\n.text 'a'\n", "low_rom"),
     "rewritten-table": ("REWRITE", "low_rom"),
-    "many-wide-operands": ("*=0x018000\n" + "".join(f"lda 0x{0x1200 + i:04x}\nsta 0x{0x7e0000 + i:06x}\nadc 0x{0x2100 + i:04x},x\n" for i in range(120)), "low_rom"),
+    "many-wide-operands": ("*=0x018000\n" + "".join(f"lda 0x{0x1200 + i:04x}\nsta 0x{0x7e0000 + i:06x}\nadc 0x{0x2100 + i:04x},x\n" for i in range(120)) +
+                           ".db " + ", ".join(str(i % 251) for i in range(3000)) + "\n", "low_rom"),
     "fail-in-include": ("*=0x018000\n.db 1\n.include 'badinc.s'\n.db 2\n", "low_rom"),
     "missing-include": ("*=0x018000\n.db 1\n.include 'nosuchfile.s'\n", "low_rom"),
     "reloc-files": ("*=0x018000\n.include 'inc.s'\n.incbin 'blob.bin'\n@=0x7e2000\nr:\n.pointer r\n", "low_rom"),
@@ -99,6 +101,10 @@ PROBES = {
     "p-no-org-hirom": ("n0:\n.db 1\njmp.w n0\nn1:\n.dl n1\n", "high_rom"),
     "p-file-api-low": ("n0:\nlda.w #0x1234\nbra n0\njsr.w n0\nn1:\n.dl n1\n*=0x018000\nf1:\n.dl f1\n", "file:low:ips"),
     "p-file-api-high-sfc": ("n0:\n.db 1\njmp.w n0\nn1:\n.dl n1\n", "file:high:sfc"),
+    # 400 nested blocks: beyond what the interpreter's default recursion limit lets the parser do, whatever was assembled before
+    "p-deep-nesting": ("*=0x018000\n" + "{\n" * 400 + "nop\n" + "}\n" * 400 + "rts\n", "low_rom"),
+    # a file name that is not an identifier: the names of its symbols are the same in every process
+    "p-incbin-odd-name": ("*=0x018000\n.incbin 'odd-name file.bin'\nafter_odd:\n.db 1\n", "low_rom"),
     "p-file-api-default": ("n0:\n.db 1\njmp.w n0\nn1:\n.dl n1\n", "file:none:ips"),
 }
 PROBE_NAMES = list(PROBES)
@@ -114,7 +120,10 @@ def bound(tier):
 def norm(text):
     if text is None:
         return None
-    return re.sub(r"0x[0-9a-f]{6,}", "0x?", str(text))
+    text = str(text)
+    if "RecursionError" in text or "maximum recursion depth" in text:
+        return "<recursion limit reached>"  # where exactly the interpreter gives up depends on the caller's stack depth
+    return re.sub(r"0x[0-9a-f]{6,}", "0x?", text)
 
 
 def observe_file(src, mapping, fmt):
